@@ -305,6 +305,15 @@ def gen_case(rng, cid, mode, focus=None, nblocks=None, maxtx=40):
                         t["force"] = True
         g.c["blocks"].append(blk)
     if mode == "chain":
+        # how the block reaches the chain service: from the network (re-executed and validated), or together with a
+        # block state (block factory / raft commit path: commit only) -- the state it was produced from, or one
+        # that disagrees with the header
+        for blk in g.c["blocks"]:
+            k = r.random()
+            if k < 0.2:
+                blk["deliver"] = "own"
+            elif k < 0.32:
+                blk["deliver"] = "foreign"
         # a block that fails during execution leaves its signature-verification result pending in the
         # validator (finding F23, see corpus/C04); random chain cases keep such blocks last
         for blk in g.c["blocks"][:-1]:
@@ -483,7 +492,9 @@ def coq_case(c, init, fixed, name):
             txs.append(coq_tx(t, hh))
             if t.get("vm") and not t["replayof"]:
                 vms.append("(%s, %s)" % (Ns(hh), coq_vm(t["vm"])))
-        blocks.append("{| b_no := %s; b_validator := %s; b_txs := [%s] |}" % (Ns(b.get("no", 0)), "true" if b.get("validator") else "false", ";\n    ".join(txs)))
+        blocks.append("{| b_no := %s; b_validator := %s; b_txs := [%s]; b_deliver := %s |}" % (
+            Ns(b.get("no", 0)), "true" if b.get("validator") else "false", ";\n    ".join(txs),
+            Ns({"own": 1, "foreign": 2}.get(b.get("deliver", ""), 0))))
     cids = ["(%s, %s, %s)" % (Ns(v[0]), Ns(v[1]), Ns(int(k))) for k, v in sorted(c["cids"].items())]
     return ("Definition %s : case := {| k_cfg := %s;\n  k_chain_mode := %s; k_coinbase := %s;\n  k_init := mk_state [%s] [%s] %s [%s];\n"
             "  k_cids := [%s]; k_vm := [%s];\n  k_ids := [%s]; k_names := [%s]; k_ckeys := [%s];\n  k_blocks := [%s] |}.\n" % (
@@ -662,6 +673,9 @@ def predicates(c, obs):
             if o["accepted"] and c["blocks"][o["blk"]].get("cidmut"):
                 fails.append(("C04", "foreign-chain-executed", "a block whose header names a chain id differing from the local one (%s) was connected and its "
                               "transactions, bound to that other chain id, were executed" % c["blocks"][o["blk"]]["cidmut"], {"block": o["blk"]}))
+            if o["accepted"] and c["blocks"][o["blk"]].get("deliver") == "foreign":
+                fails.append(("C03", "commit-path-bad-state-accepted", "a block delivered together with a block state whose root differs from the header's "
+                              "state root was committed (commit-only path skipped the post-validation): the node state moved", {"block": o["blk"]}))
             if o["accepted"]:
                 fees = int(o["feeSum"])
                 paid = c["coinbase"] != 0
@@ -681,7 +695,7 @@ def predicates(c, obs):
                         fails.append(("C04", "tx-twice", "a transaction hash was executed twice along the chain", {"tx": t}))
                     hashes.add(h)
                 # forged signatures must never be in an accepted block
-                if c["mode"] == "chain":
+                if c["mode"] == "chain" and c["blocks"][o["blk"]].get("deliver") != "own":   # own blocks: signatures are the pool's job
                     for i in o.get("included") or []:
                         t = c["blocks"][o["blk"]]["txs"][i]
                         want = t["from"]
@@ -709,7 +723,7 @@ def predicates(c, obs):
                         if t["replayof"]:
                             t = dict(t, signer=all_txs[t["replayof"] - 1]["signer"])
                         return t["signer"] == want
-                    if inc and allok and not c["blocks"][o["blk"]].get("cidmut") and len(inc) == len(c["blocks"][o["blk"]]["txs"]) and all(signer_ok(t) for t in inc):
+                    if inc and allok and not c["blocks"][o["blk"]].get("cidmut") and c["blocks"][o["blk"]].get("deliver") != "foreign" and len(inc) == len(c["blocks"][o["blk"]]["txs"]) and all(signer_ok(t) for t in inc):
                         fails.append(("C04", "valid-rejected", "a block whose transactions all execute and are all correctly signed was refused: " + str(o.get("addErr")),
                                       {"block": o["blk"]}))
                 if sa != sb:
@@ -883,6 +897,15 @@ def corpus_cases(pid):
                           dict(T("call", 12, 2, to=100, plen=0, amount="1"), vm={"res": "ok", "fee": "0", "transfers": [], "writes": [[3, 1]]})]}],
              "feecheck", version=ver, fund=[["10", str(30000 * AERGO)], ["12", str(3 * 10 ** 16)]], cids={"100": [10, 1]},
              ids=[1, 2, 3, 10, 11, 12, 30, 100], ckeys=[[100, 1], [100, 2], [100, 3]])
+    # commit-only path: a block handed over WITH a block state is committed without re-execution; the state must be
+    # the one the header commits to (validatePost), otherwise the node must stay untouched
+    def tr5(u, n):
+        return T("transfer", u, n, to=12, amount="1000")
+    case("chain", [{"txs": [tr5(10, 1), tr5(11, 1)], "deliver": "own"},
+                   {"txs": [tr5(10, 2)], "deliver": "foreign"},
+                   {"txs": [tr5(10, 2), tr5(11, 2)]},
+                   {"txs": [tr5(10, 3)], "deliver": "foreign"},
+                   {"txs": [tr5(10, 3)], "deliver": "own"}], "commitonly")
     # MULTICALL (implementation only): success with fee, with a transfer to a third account, runtime error, and
     # from an account that cannot pay
     for ver, zf in ((4, False), (2, False), (0, False), (4, True)):
